@@ -50,7 +50,7 @@ def _oracle_for(case, s):
         return s
     cap = int(case.split(" ")[1])
     obs, final = s.split(";final=")
-    top = max(int(o.split("/")[0]) for o in obs.split(","))
+    top = max(int(o.split("/")[2]) for o in obs.split(","))      # files being read at once
     return ("within-limit" if top <= cap else "LIMIT-EXCEEDED") + ";final=" + final
 
 
